@@ -13,6 +13,12 @@ CLAIMED = {
  "C17": ("Every Compare/Equal/CompareVals law is an SMT query over all values of the operand types at full width (64-bit ints, IEEE doubles, strings up to 2 bytes quick / 4 thorough); the slice key index (sliceSorter + real sort.Sort/sort.Search interpreted from source) is checked for every content of 3 (quick) / 4 (thorough) symbolic keys and every lookup key. Bounded model checking: holds for every value within those bounds.",
          NOTE_COMMON + "Outside the claim: reflection-driven lookups (sliceAsList.findByKey, mapAsList.getByKey, reflectCompare), NaN operands of decimal64, enum ids beyond int32, strings longer than the bound.",
          "DESIGN.md §2 C17"),
+ "C10": ("One harness per (target integer format x source Go kind) cell, 8 targets x 14 source kinds: the source value is a full-width symbolic variable (64-bit integers, IEEE float32/float64, strings of <=3 bytes quick / <=4 thorough run through the real strconv), the real val.Conv is executed symbolically and 'err==nil implies the result denotes exactly the same number' is decided by z3 (floating-point queries by one-shot z3/z3-new/cvc5). Also decimal64, bool, string (symbolic Itoa of 8/16-bit sources), list forms and ConvOneOf. Bounded model checking within those bounds; format x kind cells are enumerated.",
+         NOTE_COMMON + "Outside the claim: float64 -> string on symbolic doubles (strconv.FormatFloat; checked on an enumerated set instead), binary/base64 content, time.Time sources, enum/bits/identityref/union conversions of node.NewValue beyond the enum cases in C05, numeric strings longer than the byte bound.",
+         "DESIGN.md §2 C10"),
+ "C05": ("Unit level: RangeEntry/Range/RangeNumber membership for every signed, unsigned and decimal64 candidate and every pair of bounds (full-width symbolic, min/max open ends as symbolic flags), alternatives, leaf-list element-wise checks and 11 restriction texts through the real newRange. System level: a schema compiled by the real loader inside the interpreter (typedef chains of 2 and 3 levels, min/max, uint64 bounds, length, patterns incl. invert-match, enum) and Selection.Set/SetValue executed against a reference store: accepted iff inside every level, rejected writes issue zero Field writes, accepted writes store exactly the value. Bounded model checking.",
+         NOTE_COMMON + "Outside the claim: the regular-expression engine (native on the enumerated concrete strings used), writes arriving from JSON/XML readers, binary length, restriction expressions other than the listed schema and texts (structure is enumerated, values are symbolic). Known finding C05-patterns-ored.",
+         "DESIGN.md §2 C05"),
 }
 NA_REASON = "engine under construction; no check registered yet"
 
